@@ -206,6 +206,11 @@ def parseLog (s : String) : Option (List Ev) :=
   let body := body.trimAscii.toString
   if body = "" then some [] else (body.splitOn " ; ").mapM fun t => parseEv t.trimAscii.toString
 
+/-- `T`, `R<k>`, `RE`, `SR`, `SD`, `Z` -/
+def isStopCtlTok (t : String) : Bool :=
+  t = "T" || t = "SR" || t = "SD" || t = "Z" || t = "RE" ||
+  (t.startsWith "R" && t.length > 1 && (t.drop 1).all Char.isDigit)
+
 def funnelMonLine (line : String) : String :=
   if line.startsWith "skip" then "ok" else
   -- the harness marks two Source.Ack calls of one source being in flight at the same time
@@ -215,9 +220,17 @@ def funnelMonLine (line : String) : String :=
     "fail: C06 ack attempted after the source connector was torn down (a written record is left unacknowledged)" else
   if (line.splitOn "stop-hang").length > 1 || (line.splitOn "X[stop-error]").length > 1 then
     "fail: C06 graceful stop did not complete" else
-  let stopped := (line.splitOn " ; T").length > 1 || (line.splitOn "## T").length > 1
-  let line := (line.replace " ; T" "").replace "## T ; " "## "
-  let line := line.replace "## T =>" "##  =>"
+  -- control tokens of the stop protocol (`T` teardown, `R<k>`/`RE` Read returned batch k / EOF, `SR`/`SD` Stop
+  -- requested / returned, `Z` Do returned: component `workerstop` replays them) are not engine events
+  let (stopped, line) :=
+    match line.splitOn " ## " with
+    | [cs, lg] =>
+      match lg.splitOn " => " with
+      | body :: rest =>
+        let toks := (body.splitOn " ; ").map fun (t : String) => t.trimAscii.toString
+        (toks.contains "T", cs ++ " ## " ++ " => ".intercalate (" ; ".intercalate (toks.filter fun t => !isStopCtlTok t) :: rest))
+      | [] => (false, line)
+    | _ => (false, line)
   match line.splitOn " ## " with
   | [cs, lg] =>
     match parseCase cs, parseLog lg with
